@@ -62,6 +62,10 @@ type echoCfg struct {
 	endAfter int
 	answer   int
 	endGate  chan struct{}
+
+	// staleOn != 0: the response to the request carrying operation staleOn also carries a RIB_PROGRAMMED for
+	// operation staleID, which this connection never sent
+	staleOn, staleID uint64
 }
 
 type stubServer struct {
@@ -116,6 +120,9 @@ func (s *stubServer) echoModify(e *echoCfg, stream spb.GRIBI_ModifyServer) error
 			r.Result = append(r.Result, &spb.AFTResult{Id: o.GetId(), Status: spb.AFTResult_RIB_PROGRAMMED})
 			if e.fib {
 				r.Result = append(r.Result, &spb.AFTResult{Id: o.GetId(), Status: spb.AFTResult_FIB_PROGRAMMED})
+			}
+			if e.staleOn != 0 && o.GetId() == e.staleOn {
+				r.Result = append(r.Result, &spb.AFTResult{Id: e.staleID, Status: spb.AFTResult_RIB_PROGRAMMED})
 			}
 		}
 		if !e.end || n < e.answer {
